@@ -96,9 +96,13 @@ def check_models(repo, chk, tier):
     ma, mb, mc, md = sp.symbols("ma mb mc md", positive=True)
 
     def mom_hook(tr_, args, kwargs, n):
-        if args[1] == ma:
+        names_ = repo.fn(FL + "::cal_monentum").all_param_names()
+        b_ = dict(zip(names_, args))
+        b_.update(kwargs)
+        first_daughter = b_.get(names_[1])
+        if first_daughter == ma:
             return qa
-        if args[1] == mc:
+        if first_daughter == mc:
             return qb
         raise Unmodelled("cal_monentum of unexpected channel")
 
